@@ -810,6 +810,7 @@ def _le1(p2):
 
 def run(ctx):
     ls.build_squid(ctx)
+    t_built = time.time()
     groups = plan(ctx)
     nsh = ctx.ncpu
     units = []
@@ -852,6 +853,9 @@ def run(ctx):
         baselines.update(p['baselines'])
         deadline = deadline or p['deadline_hit']
         maxh = max(maxh, p['max_hist_per_instance'])
+    if tot['evaluations'] == 0 and not viol:
+        raise HarnessError('no history was run: the tier deadline (%ds) was used up before exploration started (build step took %.0fs); run again now that the tree is built' % (
+            ctx.deadline_s, t_built - ctx.t0))
     if not viol:
         if tot['nontrivial'] < tot['evaluations'] // 4:
             raise HarnessError('vacuity guard: Squid had to abort something in only %d of %d histories' % (tot['nontrivial'], tot['evaluations']))
